@@ -641,7 +641,19 @@ func castArr(opts *options, v value) ([]value, Error) {
 		return sub.c.fields.array(), nil
 	}
 	if ref, ok := v.(*cfgDynamic); ok {
+		// the references resolved for v are active only while v is evaluated
+		active := opts.activeFields
+		opts.activeFields = newFieldSet(active)
 		unrefed, err := ref.getValue(opts)
+		for err == nil {
+			// a reference to a reference (to a reference ...) to a list
+			next, isRef := unrefed.(*cfgDynamic)
+			if !isRef {
+				break
+			}
+			unrefed, err = next.getValue(opts)
+		}
+		opts.activeFields = active
 		if err != nil {
 			return nil, raiseMissingMsg(ref.ctx.getParent(), ref.ctx.field, err.Error())
 		}
